@@ -76,7 +76,7 @@ End Mol.
 (* C02: the score is the packing fraction *)
 Theorem score_is_fraction (st : pstateR) (s : R) :
   packed_score NumR st = Some s ->
-  s = p_area NumR st * INR (length (p_syms NumR st)) / cell_area NumR (p_cell NumR st)
+  s = p_area NumR st * INR (length (p_sites NumR st) * length (p_syms NumR st)) / cell_area NumR (p_cell NumR st)
   /\ check_intersection NumR st = false.
 Proof.
   unfold packed_score. destruct (check_intersection NumR st); [discriminate|].
@@ -85,9 +85,10 @@ Proof.
 Qed.
 
 Theorem score_positive (st : pstateR) (s : R) :
-  packed_score NumR st = Some s -> 0 < p_area NumR st -> (0 < length (p_syms NumR st))%nat ->
+  packed_score NumR st = Some s -> 0 < p_area NumR st ->
+  (0 < length (p_sites NumR st))%nat -> (0 < length (p_syms NumR st))%nat ->
   0 < cell_area NumR (p_cell NumR st) -> 0 < s.
 Proof.
-  intros H Ha Hn Hc. destruct (score_is_fraction st s H) as [-> _].
-  apply Rdiv_lt_0_compat; [|exact Hc]. apply Rmult_lt_0_compat; [exact Ha|]. now apply lt_0_INR.
+  intros H Ha Hs Hn Hc. destruct (score_is_fraction st s H) as [-> _].
+  apply Rdiv_lt_0_compat; [|exact Hc]. apply Rmult_lt_0_compat; [exact Ha|]. apply lt_0_INR. nia.
 Qed.
